@@ -597,6 +597,9 @@ func Main() {
 	}
 	for r := uax29.WB3; r < uax29.NWRule; r++ {
 		run.CoverN("word:"+r.String(), total.wordRules[r])
+		// word boundaries are only visible through WordIterator: a position can be judged
+		// when it lies inside, at the start or at the end of a segment that must be reported
+		run.CoverN("word-observable:"+r.String(), total.wordObservable[r])
 	}
 	zn := [3]string{"starts-with-Word-rune(must-report)", "no-Word-rune(must-not-report)", "unspecified"}
 	for z := 0; z < 3; z++ {
@@ -644,7 +647,8 @@ func Main() {
 	level.Rule = "cases: (1) every string of class representatives (one rune per distinguishable class tuple, found by scanning all code points) up to the per-family length, " +
 		"(2) every string over 8 focused alphabets (numeric, spaces, regional indicators, emoji, word-medial, hangul, mandatory breaks, widths) up to length 4-10, " +
 		"(3) real text (samples in 25 scripts, corpus texts, upstream shaping inputs, conformance lines, windows and concatenations), (4) random strings <= 64 runes biased to SP/CM/ZWJ/NU/RI, " +
-		"(5) reuse histories. Every case is judged for line, grapheme and word laws independently, on a fresh Segmenter and on one reused across the preceding cases of its chunk. " +
+		"(5) reuse histories; in the quick tier (1)-(2) are continued by sampled strings 1-3 runes longer. Every case is judged for line, grapheme and word laws independently on a fresh Segmenter; " +
+		"every case of (3)-(5) and every 4th case of (1)-(2) is also run on a Segmenter reused across the preceding cases of its chunk and must give the same segments. " +
 		"non-trivial = some interior position is decided by a rule other than LB31/GB999/WB999 in the reference; distinct_nontrivial counts hashes of non-trivial strings of streams (3)-(5) and of tuples up to length 3-5 " +
 		"(longer exhaustive tuples are distinct by construction and are counted in classes nontrivial:*, not hashed)"
 	level.Floor = run.Pick(300000, 3000000)
@@ -657,8 +661,10 @@ func (m *monitor) sample(text []rune) map[string]any {
 	o, _ := observe(&s, text, 0)
 	n := len(text)
 	words := []string{}
-	for _, w := range o.Words {
-		words = append(words, string(text[w.Off:w.Off+w.Len]))
+	if o.WordStruct == "" { // offsets are only trustworthy when the iteration laws hold
+		for _, w := range o.Words {
+			words = append(words, string(text[w.Off:w.Off+w.Len]))
+		}
 	}
 	return map[string]any{
 		"text": string(text), "runes": hexRunes(text),
